@@ -113,7 +113,7 @@ func main() {
 			rn.stressPhase()
 		}
 		if want("scenario") {
-			rn.scenarioPhase([]string{"inherit-write", "inherit-read", "quietread-write", "quietread-create", "handover-edit", "handover-mutex",
+			rn.scenarioPhase([]string{"inherit-write", "inherit-read", "quietread-write", "quietread-create", "handover-edit", "handover-mutex", "handover3-mutex", "handover3-edit",
 				"exclhold-read", "exclhold-edit", "exclhold-mutex", "exclhold-open", "exclhold-read+append", "exclhold-edit+sync",
 				"fifohold-openfile", "fifohold-edit", "mutexperm-0444"})
 		}
@@ -170,6 +170,18 @@ func (rn *runner) protoOne(c protoCase) {
 	rn.res.Count("proto:" + c.Call)
 	rn.res.Count("proto-outcome:" + strings.SplitN(impl, ":", 2)[0][:2])
 	in := map[string]string{"kind": "proto", "call": c.Call, "arg": c.Arg, "file": c.File, "helper": c.Helper}
+	// direct oracle for Transform: an error from t leaves the previous contents in place
+	if f := strings.Fields(impl); c.Call == "transform" && c.Arg == "FAIL" && len(f) >= 2 {
+		prev := c.File
+		if prev == "absent" && f[1] == "-" {
+			prev = "-" // Edit created the (empty) file
+		}
+		if f[0] != "err" || f[1] != prev {
+			rn.violate("impl-violation", "transform:t-failed-but-contents-changed", "proto t-failed "+short(c.File),
+				fmt.Sprintf("t returned an error: Transform must return it and leave the previous contents (%s) in place; observed %s %s", short(c.File), f[0], short(f[1])),
+				impl, model, in)
+		}
+	}
 	// direct oracle for Transform: a nil return means the file holds t(old)
 	if f := strings.Fields(impl); c.Call == "transform" && c.Arg != "FAIL" && len(f) >= 2 && f[0] == "ok" && f[1] != c.Arg {
 		rn.violate("impl-violation", "transform:nil-return-but-contents-not-new", "proto transform-lost "+c.Helper,
@@ -301,6 +313,8 @@ func (rn *runner) scenario(name string) scenarioResult {
 		return scenarioQuietRead(rn.self, rn.f.Work, parts[1])
 	case "handover":
 		return scenarioHandover(rn.self, rn.f.Work, parts[1])
+	case "handover3":
+		return scenarioHandover3(rn.self, rn.f.Work, parts[1])
 	case "fifohold":
 		return scenarioFifoHold(rn.self, rn.f.Work, parts[1])
 	case "mutexperm":
